@@ -28,6 +28,7 @@ from common import InfraError
 
 sys.path.insert(0, os.path.join(common.VERIF, "translate"))
 import intmacros  # noqa: E402
+import castexprs  # noqa: E402
 
 MANIFEST = {
     "text": "Kernel-checked theorems, for every integer primitive (1/2/4/8 bytes; signed, unsigned, _Bool) and every "
@@ -44,7 +45,8 @@ MANIFEST = {
     "note": "Trusted: Lean kernel; the C-expression translator (translate/intmacros.py); CPython's PyLong_As* "
             "(modelled: OverflowError outside 64 bits, in-band -1); gcc conversions between integer types wrap; LP64 "
             "little endian; libffi argument/return marshalling (validated by the compiled receivers, not proved). "
-            "_cffi_to_c__Bool and the emitted error check are modelled by hand (not regenerated); objects with "
+            "The if/else chain of _cffi_to_c__Bool and the emitted argument check (obtained by running the code "
+            "generator on every integer primitive) are regenerated too (translate/castexprs.py); objects with "
             "__int__ / floats as stored values are outside the statement.",
     "technique": "Lean 4 proof (case analysis over widths/kinds, omega, BitVec simprocs over regenerated macro "
                  "expressions) + translator + differential correspondence on all store paths with a Python/C oracle",
@@ -241,9 +243,13 @@ def run_paths(te, v, pat):
     def attempt(fn):
         try:
             fn()
-            return "ok"
         except Exception as e:      # noqa: BLE001 - the exception type is the observation
             return type(e).__name__
+        try:
+            bytes(_CANARY)          # bytes() checks PyErr_Occurred(): reports an exception fn() left pending
+        except Exception as e:      # noqa: BLE001
+            return "returned-with-pending-" + type(e).__name__
+        return "ok"
 
     # ffi.new initializer / array initializer / struct initializer (fresh memory: no "before")
     box = []
@@ -313,6 +319,8 @@ def run_paths(te, v, pat):
         obs[key] = (r, lb[:size], int(box[0]) if box else None, list(te.cb_exc))
     return obs
 
+
+_CANARY = bytearray(b"c03")
 
 A_PATHS = ("new", "new-array", "new-struct", "item", "field", "global-api", "global-abi", "arg-abi")
 MEM_PATHS = ("item", "field", "global-api", "global-abi")
@@ -396,7 +404,7 @@ def nontrivial(te, v):
 # ---------------------------------------------------------------- entry points
 
 def translators(ctx):
-    return [intmacros.translator(ctx)]
+    return [intmacros.translator(ctx), castexprs.translator(ctx)]
 
 
 def compare_model(ctx, te, v, pat, obs, store_ans, cb_ans):
